@@ -13,7 +13,7 @@ RULE = ('histories = every sequence of override / remove / add operations up to 
         'potable command line (-e/-r/-a, one value per occurrence and several values per occurrence), in lock-step with the reference: the '
         'same edits applied to the ordered text model, whose rendering is parsed/tabulated by the same implementation; observations: '
         'configuration-error vs success, parsed lists, output bytes, --list-items / --list-item-labels / --item-value')
-RULE += "; third file: embedding-only EAM model with an empty [Pair] header; values containing ':' then '=', placeholders, two lines, blanks around them, '' (empty); pin-then-override-the-variable sequences; sequences of 4-5 overrides over three items and of 2-4 same-valued overrides (three groupings); tuple / generator arguments; sections the listing must show once ([Table-Form : t2], [Pair:disabled], [Notes]); malformed items (no '=', no ':', unknown item for --item-value, stray '$'); the manual's options-first argument order (known finding F33)"
+RULE += "; third file: embedding-only EAM model with an empty [Pair] header; values containing ':' then '=', placeholders, two lines, blanks around them, '' (empty); pin-then-override-the-variable sequences; sequences of 4-5 overrides over three items and of 2-4 same-valued overrides (three groupings); tuple / generator arguments; sections the listing must show once ([Table-Form : t2], [Pair:disabled], [Notes]); malformed items (no '=', no ':', unknown item for --item-value, stray '$'); the manual's options-first argument order (known finding F33); fourth file: an ADP model whose dipole / quadrupole entries are edited and listed"
 ASSUMPTIONS = [
     'ConfigParser(overrides=, additional=) applies the override list in order (value None = removal) and then the additions: the reference applies the edits in that order and is rejected at the first edit that hand editing could not perform',
     'command line: options of one kind are applied in the order typed, overrides and removals before additions; exact repetitions of one removal are outside the alphabet (the de-duplication of identical options is not specified)',
@@ -50,7 +50,15 @@ def eam_nopair_file():
     return f
 
 
-FILES = {'pair': pair_file, 'eam': eam_file, 'eamnp': eam_nopair_file}
+def adp_file():
+    f = eam_file()
+    f.section('Tabulation')[1][0][1] = 'eam_adp'
+    f.sections.append(['EAM-ADP-Dipole', [['U-O', '>=0 as.polynomial 0.5 -0.2 0.01'], ['U-U', '>=0 as.polynomial 0.6 -0.2 0.01']]])
+    f.sections.append(['EAM-ADP-Quadrupole', [['O-O', '>=0 as.morse 0.75 1.3 0.2'], ['U-O', '>=0 as.morse 0.85 1.3 0.21']]])
+    return f
+
+
+FILES = {'pair': pair_file, 'eam': eam_file, 'eamnp': eam_nopair_file, 'adp': adp_file}
 
 # (section, key as typed, values)
 KEYS = {
@@ -65,6 +73,8 @@ KEYS = {
              ('Pair ', 'Pu-O', ['as.lj 0.25 2.3'])],        # (the section named with a trailing blank, as in '--add-item "Pair :Pu-O=..."')
     'eamnp': [('EAM-Embed', 'U', ['>=0 as.polynomial 0.5 -2.0']), ('EAM-Density', 'O', ['>=0 as.polynomial 1.0 0.5']), ('Species', 'U.lattice_constant', ['5.5']),
               ('Pair', 'U-O', ['>=0 as.morse 1.0 2.0 0.5']), ('Tabulation', 'nrho', ['4'])],
+    'adp': [('EAM-ADP-Dipole', 'U-O', ['>=0 as.polynomial 0.25 0.5']), ('EAM-ADP-Dipole', 'O-O', ['>=0 as.polynomial 0.75 0.5']), ('EAM-ADP-Quadrupole', 'U - O', ['>=0 as.polynomial 0.125 0.5']),
+            ('EAM-ADP-Quadrupole', 'U-U', ['as.zero']), ('Pair', 'U-O', ['>=0 as.morse 1.0 2.0 0.5']), ('EAM-Density', 'U', ['>=0 as.polynomial 1.0 0.5'])],
     'eam': [('EAM-Embed', 'U', ['>=0 as.polynomial 0.5 -2.0']), ('EAM-Density', 'U', ['>=0 as.polynomial 1.0 0.5']), ('EAM-Density', 'Th', ['as.zero']),
             ('Pair', 'U-O', ['>=0 as.morse 1.0 2.0 0.5']), ('Species', 'U.lattice_constant', ['5.5']), ('Tabulation', 'nrho', ['4'])],
 }
@@ -100,10 +110,10 @@ def valid_cli(prefix):
 
 def cases(tier):
     out = []
-    for fname, d in (('pair', 3 if tier == 'quick' else 4), ('eam', 2 if tier == 'quick' else 3), ('eamnp', 2 if tier == 'quick' else 3)):
+    for fname, d in (('pair', 3 if tier == 'quick' else 4), ('eam', 2 if tier == 'quick' else 3), ('eamnp', 2 if tier == 'quick' else 3), ('adp', 2 if tier == 'quick' else 3)):
         for h in hist.histories(alphabet(fname), d, valid_api):
             out.append(dict(route='api', file=fname, ops=h, light=(len(h) > 3)))
-    for fname, d in (('pair', 2 if tier == 'quick' else 3), ('eam', 2), ('eamnp', 2)):
+    for fname, d in (('pair', 2 if tier == 'quick' else 3), ('eam', 2), ('eamnp', 2), ('adp', 2)):
         for h in hist.histories(alphabet(fname), d, valid_cli):
             out.append(dict(route='cli', file=fname, ops=h, grouped=False))
             if len(h) >= 2:
